@@ -1820,6 +1820,7 @@ fn emit_fn(src: &Src, path: &str, fd: &FnDir, bm: &[(String, String)], unit: &st
         eprintln!("BINDERS {}::{} {}", src.rel, path, cur_binders.join(" "));
     }
     let mut local_renames: Vec<(String, String)> = vec![];
+    let mut heuristic_renames = false;
     if let Some(old) = &fd.binders {
         if old.len() == cur_binders.len() {
             let mut ok = true;
@@ -1841,6 +1842,48 @@ fn emit_fn(src: &Src, path: &str, fd: &FnDir, bm: &[(String, String)], unit: &st
             }).collect();
             local_renames.retain(|(a, _)| !params.contains(a));
             if !ok { local_renames.clear(); }
+        } else {
+            // RN (heuristic form): binders were added or removed as well. Align the two lists on the names they
+            // share; inside each gap, forget contract-side binders that no spliced text mentions, then pair what is
+            // left position by position. The result is only a GUESS: the function is verified with it, but a failing
+            // obligation there is treated like one whose hints were dropped (weak: needs a failing input to count).
+            let mut mentioned_text = String::new();
+            for c in fd.requires.iter().chain(fd.ensures.iter()).chain(fd.decreases.iter()).chain(fd.exits_ok.iter()) { mentioned_text.push_str(&c.text); mentioned_text.push('\n'); }
+            for (_, l) in fd.loops.iter() { for c in l.invariant.iter().chain(l.invariant_except_break.iter()).chain(l.ensures.iter()).chain(l.decreases.iter()) { mentioned_text.push_str(&c.text); mentioned_text.push('\n'); } }
+            for a in fd.ats.iter() { mentioned_text.push_str(&a.text); mentioned_text.push('\n'); mentioned_text.push_str(&a.pos); mentioned_text.push('\n'); }
+            for sb in fd.substs.iter() { mentioned_text.push_str(&sb.1); mentioned_text.push('\n'); }
+            let mentions = |name: &str| -> bool {
+                let b = mentioned_text.as_bytes();
+                let is_id = |c: u8| c.is_ascii_alphanumeric() || c == b'_';
+                mentioned_text.match_indices(name).any(|(i, _)| (i == 0 || !is_id(b[i - 1])) && (i + name.len() >= b.len() || !is_id(b[i + name.len()])))
+            };
+            // LCS on equal names
+            let (n, m) = (old.len(), cur_binders.len());
+            let mut t = vec![vec![0usize; m + 1]; n + 1];
+            for i in (0..n).rev() { for j in (0..m).rev() { t[i][j] = if old[i] == cur_binders[j] { t[i + 1][j + 1] + 1 } else { t[i + 1][j].max(t[i][j + 1]) }; } }
+            let (mut i, mut j) = (0usize, 0usize);
+            let mut ok = true;
+            let mut gap_old: Vec<String> = vec![];
+            let mut gap_cur: Vec<String> = vec![];
+            let mut close_gap = |go: &mut Vec<String>, gc: &mut Vec<String>, out: &mut Vec<(String, String)>, ok: &mut bool| {
+                let kept: Vec<String> = go.iter().filter(|x| mentions(x)).cloned().collect();
+                if kept.len() == gc.len() { for (a, b) in kept.iter().zip(gc.iter()) { out.push((a.clone(), b.clone())); } }
+                else if !kept.is_empty() { *ok = false; }
+                go.clear(); gc.clear();
+            };
+            while i < n || j < m {
+                if i < n && j < m && old[i] == cur_binders[j] { close_gap(&mut gap_old, &mut gap_cur, &mut local_renames, &mut ok); i += 1; j += 1; }
+                else if j < m && (i == n || t[i][j + 1] >= t[i + 1][j]) { gap_cur.push(cur_binders[j].clone()); j += 1; }
+                else { gap_old.push(old[i].clone()); i += 1; }
+            }
+            close_gap(&mut gap_old, &mut gap_cur, &mut local_renames, &mut ok);
+            for (k, (_, b)) in local_renames.iter().enumerate() {
+                if local_renames.iter().enumerate().any(|(l, (_, b2))| l != k && b2 == b) { ok = false; }
+                if old.contains(b) && cur_binders.contains(b) && !local_renames.iter().any(|(a, _)| a == b) { ok = false; }
+            }
+            local_renames.retain(|(a, b)| a != b);
+            if !ok { local_renames.clear(); }
+            heuristic_renames = ok;
         }
     }
     let fd_renamed;
@@ -2163,6 +2206,7 @@ fn emit_fn(src: &Src, path: &str, fd: &FnDir, bm: &[(String, String)], unit: &st
         "impl_header": impl_hdr, "text": &src.text[fn_start..fn_end],
         "loops": loops.len(), "statements": stmts.len(), "lost_hints": lost_hints,
         "auto": fd.auto,
+        "heuristic_renames": heuristic_renames,
         "local_renames": local_renames.iter().map(|(a, b)| json!({"contract": a, "code": b})).collect::<Vec<_>>()}));
     if imported {
         return;
